@@ -257,6 +257,12 @@ func (c *Ctx) judgeSuccess(h *History, o *Obs, g *GenSpec, add func(o *Obs, clas
 		return err
 	}
 	if ref.Exit != 0 {
+		if g.Spec != nil && g.Expect == "ok" && len(o.FaultsFired) == 0 && o.Exit != 0 && h.Ops[o.OpIndex].Label == "success-from-clean-tree" {
+			// healthy by the layout spec (independent of goverter), a clean tree, no fault: a
+			// failing run here fails in the reference as well, which must not hide it
+			add(o, "healthy-exit", fmt.Sprintf("all converters healthy (by the layout spec), clean tree, no fault fired, but exit %d: %s", o.Exit, trunc(o.Stderr, 200)))
+			return nil
+		}
 		// the world was meant to be healthy; if the reference disagrees the generator of
 		// the case is wrong, not goverter
 		c.Stats.Add("c17.expected_healthy_but_reference_fails", 1)
@@ -504,6 +510,22 @@ func C17Cases(c *Ctx, rng *rand.Rand, spec *LSpec, withDisk bool, nArgv int) ([]
 		h.Ops = append(h.Ops, genOp(&GenSpec{Argv: DrawArgv(rng, w1), Plan: planIdentity()}))
 		hs = append(hs, h)
 	}
+	// (g) success from a clean tree (no earlier run created any directory): both versions of
+	// the healthy spec; every output file must be there, directories created as needed
+	for k, sp := range []*LSpec{spec, v2} {
+		h := &History{World: w1, Loc: rng.IntN(len(locNames))}
+		if k == 1 {
+			h.Ops = append(h.Ops, editOps("EditTypes", w1.Files, v2.Render())...)
+		}
+		g := &GenSpec{Expect: "ok", Plan: planIdentity(), Spec: sp}
+		if k == 1 {
+			g.Plan = planAll("perm", 0, rng.Uint64())
+		}
+		op := genOp(g)
+		op.Label = "success-from-clean-tree"
+		h.Ops = append(h.Ops, op)
+		hs = append(hs, h)
+	}
 	return hs, nil
 }
 
@@ -575,6 +597,27 @@ func CheckC17(c *Ctx) (*Outcome, error) {
 				}
 			}
 		}
+		if i%4 == 1 {
+			// two interface converters of one package write into sibling directories of which
+			// one name is a string prefix of the other (./gen next to the default ./generated),
+			// neither existing before the first run
+			var idx []int
+			for k := range spec.Convs {
+				if spec.Convs[k].Kind == "interface" && !spec.Convs[k].GuardedDecl {
+					idx = append(idx, k)
+				}
+			}
+			if len(idx) >= 2 {
+				a, b := &spec.Convs[idx[0]], &spec.Convs[idx[1]]
+				b.Dir = a.Dir
+				a.OutFile, a.OutPkg, a.ExtIn = "", "", ""
+				b.OutFile, b.OutPkg, b.ExtIn = "./gen/"+strings.ToLower(b.Name)+".go", "", ""
+				if hasPathConflict(spec) {
+					return nil, nil
+				}
+				c.Stats.Add("c17.prefix_sibling_worlds", 1)
+			}
+		}
 		hs, err := C17Cases(c, rng, spec, i < nDisk, nArgv)
 		if err != nil {
 			return nil, err
@@ -637,7 +680,7 @@ func CheckC17(c *Ctx) (*Outcome, error) {
 		return nil, err
 	}
 	out.Coverage = map[string]any{
-		"rule": "per world: every non-empty subset of converters made defective at a drawn stage (exhaustive for <=4 converters) over pre-existing outputs and changed healthy inputs; every mutating disk call of the fault-free run x every fault kind, from a clean tree and over earlier outputs; drawn CLI argument vectors. Non-trivial = a defective subset, a fired disk fault, or an argv case; distinct = distinct (world hash, defective set+stages, fault attachment, argv, expectation) tuples, counted",
+		"rule": "per world: every non-empty subset of converters made defective at a drawn stage (exhaustive for <=4 converters) over pre-existing outputs and changed healthy inputs; every mutating disk call of the fault-free run x every fault kind, from a clean tree and over earlier outputs; success runs from a clean tree (directories created as needed, incl. sibling output directories whose names are string prefixes of each other) judged against the layout spec, not against the program's own run; drawn CLI argument vectors. Non-trivial = a defective subset, a fired disk fault, or an argv case; distinct = distinct (world hash, defective set+stages, fault attachment, argv, expectation) tuples, counted",
 		"exhaustive_note": "exhaustive per world over converter subsets (n<=4) and over (disk call x fault kind); worlds themselves are sampled",
 	}
 	return out, nil
